@@ -229,7 +229,7 @@ WithoutListing(t) == SelectSeq(t, LAMBDA x : x.p # ListingName)
 \* snapshot group labels are positions: dropping the listing entry shifts them
 Relabel(t) == LET idxOf(g) == IF g = 0 THEN 0 ELSE Cardinality({k \in 1..g : t[k].p # ListingName})
               IN [i \in DOMAIN WithoutListing(t) |-> [WithoutListing(t)[i] EXCEPT !.g = idxOf(@)]]
-MetaClauses(c, begin, e, stats, view) ==
+MetaClauses(c, begin, e, stats, view, notes) ==
   LET selected == {begin.selected[k] : k \in DOMAIN begin.selected}
       want == [i \in DOMAIN stats |-> stats[i].sh]
       listed == SelectSeq(want, LAMBDA x : TRUE)
@@ -246,6 +246,8 @@ MetaClauses(c, begin, e, stats, view) ==
           \cup Cl(~(reqs \subseteq {p \in selected : Has(view, p) /\ At(view, p).t = "file" /\ At(view, p).hl = <<>>}),
                   "C19.contentRequestedForUnselectedEntry")
           \cup Cl(~ReqOK(reqs, proj, before, c.differ, FALSE), "C19.contentRequestSet")
+          \* each selected entry / needed ancestor is applied once
+          \cup Cl(\E k1, k2 \in NonDelete(notes) : k1 # k2 /\ notes[k1].p = notes[k2].p, "C19.entryAppliedTwice")
 
 \* ---- C03: hostile sender ---------------------------------------------------
 \* index of the first STAT that a receiver must reject: not a clean relative path strictly
@@ -313,7 +315,7 @@ EndClauses(c, e) ==
         THEN (IF "filtered" \in DOMAIN begin THEN {} ELSE {"C11.faultFreeTransferFailed"}) \cup {"C08.outcomeDependsOnSchedule"} ELSE {})
   \cup (IF "hostile" \in DOMAIN begin /\ c.realR THEN HostileClauses(c, begin, e, stats) ELSE {})
   \cup (IF "filtered" \in DOMAIN begin THEN FilteredClauses(c, begin, evs, stats) ELSE {})
-  \cup (IF c.metaOnly /\ c.realR THEN MetaClauses(c, begin, e, stats, view) ELSE {})
+  \cup (IF c.metaOnly /\ c.realR THEN MetaClauses(c, begin, e, stats, view, notes) ELSE {})
   \cup Cl(c.retS = "none" \/ c.retR = "none", "C04.callDidNotReturn")
 
 EndDetail(c, e) ==
